@@ -369,6 +369,11 @@ func propC18(w *World, r *Report) {
 			}
 		}
 	}
+	// the camera description is read line by line from that reader and nothing beyond its terminating line is taken (a
+	// reader with a buffer of its own - a Scanner - would swallow the head of the first frame)
+	linkObligations(w, r, propC14, "C14", func(o *Obligation) bool {
+		return o.Rule == "C14.M4" && strings.Contains(o.Construct, "read only through ReadString")
+	}, "W2")
 	// W4: close on every exit after the goroutine started
 	closed := mustPassBeforeReturn(hc, goStmts[0], func(in ssa.Instruction) bool {
 		c, ok := in.(*ssa.Call)
